@@ -349,4 +349,59 @@ PROPS = {
         "partial": ["builder-level part of C07 (redirect insertion, unknown-export error, which operations the builder issues on the table) is not covered here",
                     "no-misattribution is proved outside four input classes; the unrestricted statement is refuted (4 witnesses)"],
     },
+    "C09": {
+        "harness": "c09",
+        "props_file": "Props/C09.v",
+        "run_module": "Model.Lattice Model.Closure Model.RunC09",
+        "run_fn": "run_c09",
+        "level": "proof",
+        "pinned_theorems": ["L_extend_sound", "L_extend_covers", "L_extend_no_more", "L_extend_strict",
+                            "L_exports_extend_sound", "L_exports_extend_covers", "L_exports_extend_no_more",
+                            "L_add_sound", "L_add_covers", "L_add_none", "L_add_no_more_state",
+                            "L_add_exact_outside_class", "L_add_no_more_outside_class",
+                            "L_add_exact_refuted", "L_add_no_more_refuted", "L_terminates", "L_measure_bounded",
+                            "L_add_qualified_den", "L_from_parts_den", "L_add_named_den",
+                            "C09_closedb_correct", "C09_exportedb_correct", "C09_private_member_class",
+                            "C09_dangling_outside_known_class", "C09_closed_ambient_private_refuted"],
+        "exhaustive": {"quick": True, "thorough": True},
+        "rule": ("four streams by case number. (lattice sequences) 6000 (quick) / 60000 (thorough) random cases through the "
+                 "cfg-guarded hooks of /repo: NamedSubset operation sequences of 1-12 operations (from_parts, add, "
+                 "add_qualified, add_named, extend) over the 5-name universe {default,a,b,prototype,c} with values of nesting "
+                 "depth <= 3 and random key insertion order, batches of Exports::extend pairs, and ImportedExports::add "
+                 "sequences of 1-12 increments; after every operation the real state and returned difference are compared "
+                 "STRUCTURALLY (key order included) with the extracted model. (lattice pairs, exhaustive) ALL ordered pairs "
+                 "of ImportedExports values of nesting depth <= 2 over 2 names incl. default (quick: 38 x 38) / 3 names "
+                 "(thorough: 1002 x 1002), the increment's keys in the opposite insertion order. (corpus) every spec under "
+                 "/repo/tests/specs/graph/fast_check (recursively, 108 files) and tests/specs/graph/jsr (35 files) is served "
+                 "from memory, built and fast-checked by the REAL code as the spec runner does (fast_check_dts = false). "
+                 "(generated) 700 (quick) / 12000 (thorough) worlds of 1-3 JSR packages with 1-4 modules (.ts/.tsx/.d.ts, "
+                 "optionally a second entrypoint) of 3-9 declarations (interface, type alias, class with public/static/"
+                 "private members, accessor, optional base class, function with/without overloads and default parameters, "
+                 "const with literal or typed initialiser, enum, namespace with exported/private/nested members, type+value "
+                 "of one name with either exported), exported or private, types drawn at random from local declarations, "
+                 "namespace-qualified members, typeof values, named/aliased/type-only/namespace/default imports from "
+                 "sibling modules and other packages, import types (plain and qualified), named/aliased/star/namespace "
+                 "re-exports, local export lists and default exports; 12% of packages get a fast-check error. For every "
+                 "emitted module the harness re-parses original and output with deno_ast + scope analysis, decodes the "
+                 "source map (own VLQ decoder) and hands the facts to the extracted judge closedb (proved = Closed): (1) "
+                 "parses with the source's media type, (2) no identifier bound at module level in the original is "
+                 "unresolved in the output, (3) every name imported/re-exported (incl. import-type qualifiers) from a "
+                 "module of the graph is exported by that module's emitted text (its original when it has none) through "
+                 "export-star chains, (4) every relative specifier is a key of the fast-check dependencies that resolves in "
+                 "the graph, (5) source map decodes, every segment lies inside both texts, every generated identifier "
+                 "token that starts at a segment maps to the same identifier (keywords, modifier keywords in the original, "
+                 "the same name as a string-literal key, and a second segment at the same position that maps correctly "
+                 "are exempt). non-trivial = lattice case with >= 3 operations, or a world with >= 1 emitted module; "
+                 "distinct = distinct model input"),
+        "assumptions": [
+            "the tracer (analyze_module_info) and the transform are NOT modelled: closure of real outputs is judged per output by the proved decision procedure, not proved for all inputs",
+            "clause 5 (source maps) concerns SWC's emitter: checked per output, no theorem",
+            "IndexMap invariant (unique keys at every level) is a hypothesis of the lattice laws (wf_n / wf_e / wf_i) and is proved preserved by every operation",
+            "scope analysis (which identifiers are unresolved / module-level) is SWC's resolver as exposed by deno_ast; the export tables are read from the re-parsed AST by the harness",
+            "known finding F-C09a (private members of ambient classes keep references to untraced declarations) is reported as KNOWN-FINDING; all other clauses of those modules are still judged",
+        ],
+        "partial": ["closure is proved for the lattice only (L_*); for the tracer/transform it is decided per real output (C09_closedb_correct), generated and corpus",
+                    "L_add_sound as an equality and L_add_no_more are refuted in one class (qualified `default` meets Star: over-approximation, L_add_exact_refuted / L_add_no_more_refuted) and proved outside it",
+                    "the statement 'every emitted module is closed' is refuted for ambient classes with private members referencing private declarations (C09_closed_ambient_private_refuted, F-C09a)"],
+    },
 }
